@@ -384,3 +384,58 @@ func VerifC08_DeploymentInProgress() {
 	}
 	verifrt.Cover("done")
 }
+
+// VerifC08_StatefulSetLikeWorkload: the handler of StatefulSet-like workloads (native / Advanced StatefulSet, custom
+// workloads, always handled as unstructured objects): a release change (template, or rollout-id) of a workload with
+// replicas that an active Rollout references is held back — partition forced up, marked in progress — whichever way
+// the RollingUpdate strategy is spelled (explicit type, or the field left to its default); OnDelete workloads and
+// everything else are admitted unchanged.
+func VerifC08_StatefulSetLikeWorkload() {
+	mk := func(ver string, strategy int, replicas int64) *unstructured.Unstructured {
+		spec := map[string]interface{}{
+			"replicas": replicas,
+			"template": map[string]interface{}{"metadata": map[string]interface{}{"labels": map[string]interface{}{"app": "w", "ver": ver}}},
+		}
+		switch strategy {
+		case 1:
+			spec["updateStrategy"] = map[string]interface{}{"type": "RollingUpdate"}
+		case 2:
+			spec["updateStrategy"] = map[string]interface{}{"rollingUpdate": map[string]interface{}{"partition": int64(0)}}
+		case 3:
+			spec["updateStrategy"] = map[string]interface{}{"type": "OnDelete"}
+		}
+		return &unstructured.Unstructured{Object: map[string]interface{}{"apiVersion": "apps.kruise.io/v1beta1", "kind": "StatefulSet",
+			"metadata": map[string]interface{}{"namespace": "ns", "name": "w"}, "spec": spec}}
+	}
+	strategy := verifrt.IntRange("sts.strategySpelling", 0, 3) // 0 no updateStrategy at all
+	replicas := int64(verifrt.IntRange("sts.replicas", 0, 10))
+	oldObj := mk("v1", strategy, replicas)
+	templateChanged := verifrt.Bool("sts.templateChanged")
+	newVer := "v1"
+	if templateChanged {
+		newVer = "v2"
+	}
+	newObj := mk(newVer, strategy, replicas)
+	rs := c08MakeRolloutsN("apps.kruise.io/v1beta1", "StatefulSet", 1)
+	h := &UnifiedWorkloadHandler{Client: rs.client()}
+	var changed bool
+	var err error
+	panicked := verifrt.NoPanic(func() { changed, err = h.handleStatefulSetLikeWorkload(newObj, oldObj) })
+	verifrt.Assert(!panicked && err == nil, "C08.statefulsetlike.nopanic")
+	if panicked {
+		return
+	}
+	m := rs.activeMatch
+	rolling := strategy != 3
+	mustHold := templateChanged && replicas > 0 && rolling && m != nil && !m.Spec.Strategy.IsEmptyRelease()
+	if mustHold {
+		verifrt.Cover("held")
+		verifrt.Assert(changed, "C08.statefulsetlike.heldBackWhenRequired")
+		verifrt.Assert(util.GetStatefulSetPartition(newObj) > 1000, "C08.statefulsetlike.fullPartition")
+		state, ok := verifrt.JSONGet(newObj.GetAnnotations()[util.InRolloutProgressingAnnotation], "rolloutName")
+		verifrt.Assert(ok && state == m.Name, "C08.statefulsetlike.markedInProgressForThatRollout")
+	} else {
+		verifrt.Cover("admitted-unchanged")
+		verifrt.Assert(!changed, "C08.statefulsetlike.notChangedWhenNotRequired")
+	}
+}
